@@ -181,6 +181,29 @@ func (s *Server) RevGet(ns, name string) (*v1alpha1.ControllerRevision, error) {
 	return req.PreRev.DeepCopy(), nil
 }
 
+// RevList is the uncached LIST of the ControllerRevisions of a namespace (a read:
+// counted for fault injection like a get). The label selector is ignored.
+func (s *Server) RevList(ns string, labelSelector string) (*v1alpha1.ControllerRevisionList, error) {
+	s.Mu.Lock()
+	defer s.Mu.Unlock()
+	req, err := s.beginRev("get", ns, "")
+	req.List = true
+	if err != nil {
+		return nil, err
+	}
+	// (metacontroller lists "everything" and filters by owner and selector itself;
+	// the selector string is not interpreted here)
+	_ = labelSelector
+	out := &v1alpha1.ControllerRevisionList{}
+	for _, r := range s.revs {
+		if r.obj.Namespace == ns {
+			out.Items = append(out.Items, *r.obj.DeepCopy())
+		}
+	}
+	req.Accepted = true
+	return out, nil
+}
+
 // ---- mcclientset.Interface over the Server ----
 
 type MCClient struct{ S *Server }
